@@ -9,11 +9,13 @@ one bin at a time (an operation on key `k` touches bin `k % m` only — no resiz
 table keeps its length). One transition of the table is one transition of one thread in one bin; all
 bins share one clock, so invocation and response times of calls in different bins are comparable.
 
-The history of the table is the history of the *map*: calls on all keys together. To be proved
-(`Lemmas/TableK.lean`): at quiescence it is `LinMap.MapLinearizable` — ONE sequential order of all
+The history of the table is the history of the *map*: calls on all keys together. Proved
+(`Lemmas/TableK.lean`, `Props/C01TableK.lean`): at quiescence it is `LinMap.MapLinearizable` — ONE sequential order of all
 calls on all keys, respecting real time, each call answering what a sequential map answers — from
 the empty map to the map whose key `k` has the abstract state of bin `k % m`. This is the per-bin
-theorem (`binK_linearizable_quiescent`) composed with locality (`C01.locality`). -/
+theorem (`binK_linearizable_quiescent`) composed with locality (`C01.locality`); a `tick` of a bin is
+the `BinK` step of a thread that is idle there and starts nothing, so every bin of a reachable
+table is `BinK.Reachable`. -/
 namespace Flurry.Proto.TableK
 open Flurry.Lin Flurry.LinMap
 
